@@ -103,6 +103,9 @@ VARIANTS = [
     V("offset sentinel restore deleted", ("C08",), "R-SENTINEL", "core.py", '    offset[labels == -1] = -1\n', '', must_mention="offset_labels"),
     V("label axes always ascending", ("C08",), "R-COPERMUTE", "core.py", 'tuple(-array.ndim + ax + by_.ndim for ax in axis_))', 'tuple(ax for ax in range(by_.ndim) if ax + array.ndim - by_.ndim in axis_))', must_mention="groupby_reduce"),
     V("twin: label axes bound to a local first", ("C08",), "", "core.py", '        by_ = _move_reduce_dims_to_end(by_, tuple(-array.ndim + ax + by_.ndim for ax in axis_))', '        by_axes_ = tuple(-array.ndim + ax + by_.ndim for ax in axis_)\n        by_ = _move_reduce_dims_to_end(by_, by_axes_)', expect="silent"),
+    V("plain Index not sorted when sort=True", ("C16",), "R-SORTED", "core.py", '            if sort:\n                out.append(ex.sort_values())', '            if sort and isinstance(ex, pd.IntervalIndex):\n                out.append(ex.sort_values())', must_mention="_convert_expected_groups_to_index"),
+    V("finite stand-in for -inf on floats", ("C04", "C20"), "R-INFRESOLVE", "xrdtypes.py", '    if issubclass(dtype.type, np.floating):\n        return -np.inf', '    if issubclass(dtype.type, np.floating):\n        return np.finfo(dtype).min if min_for_int else -np.inf', must_mention="get_neg_infinity"),
+    V("twin: sentinel restored with np.where", ("C07",), "", "core.py", '    group_idx[nan_by_mask] = -1\n    return group_idx', '    return np.where(nan_by_mask, -1, group_idx)', expect="silent"),
     V("labels not re-sorted with values", ("C16",), "R-COINDEX", "core.py", '                groups = (groups[0][sorted_idx],)', '                groups = (groups[0],)', must_mention="groupby_reduce"),
     V("duplicate-sentinel mask applied to values only", ("C16",), "R-COINDEX", "core.py", '            groups_ = groups_[..., ~mask]', '            groups_ = groups_[groups_ != -1]', must_mention="groupby_reduce"),
     V("median gets a decomposition", ("C18",), "R-BLOCKONLY", "aggregations.py", '    name="median",\n    fill_value=dtypes.NA,\n    chunk=None,\n    combine=None,', '    name="median",\n    fill_value=dtypes.NA,\n    chunk="median",\n    combine="median",', must_mention="median"),
